@@ -297,6 +297,8 @@ async def end_to_end(chk, rng, n):
         srv = mkserver([s])
         a = Peer(srv)
         caps = rng.choice([BASE, BASE | C.CLIENT_DEPRECATE_EOF])
+        if rng.random() < 0.3:
+            caps = caps | C.CLIENT_OPTIONAL_RESULTSET_METADATA      # only what is negotiated counts (Peer.login masks with the greeting)
         await a.login(caps=caps)
         binary = rng.random() < 0.6
         cursor = binary and rng.random() < 0.4
